@@ -351,7 +351,10 @@ void World::seal() {
               queue, (int16_t) cfg.queue);
     ctx->user_context = this;
 #if SIM_HEAP
-    SCPI_InitHeap(ctx, heap, (size_t) cfg.heap);
+    if (cfg.no_heap == 0)
+        SCPI_InitHeap(ctx, heap, (size_t) cfg.heap);
+    else if (cfg.no_heap == 2)
+        SCPI_InitHeap(ctx, heap, 0);   // a heap of length zero (a NULL pointer here would already be a NULL argument to memset)
 #endif
 }
 
